@@ -288,6 +288,69 @@ func vRunCase4(t *testing.T, c vCase) (msg string) {
 		if !bytes.Equal(snapM, msg[:cap(msg)]) || !bytes.Equal(snapD, dst[:cap(dst)]) {
 			return c.Op + " with buffer layout " + itoa(c.N) + " modified the caller's buffers"
 		}
+	case "h2s-many":
+		// N seeded messages: results whose leading bytes are zero (1 in 256) must be handled like any other
+		dst := []byte("QUUX-V01-CS02-with-secp256k1_XMD:SHA-256_SSWU_RO_")
+		small := 0
+		for i := 0; i < c.N; i++ {
+			m := []byte("message-" + itoa(i))
+			want := new(big.Int).Mod(new(big.Int).SetBytes(vExpandXMD(m, dst, 48)), vN)
+			if want.BitLen() <= 248 {
+				small++
+			}
+			var got []byte
+			func() {
+				defer func() {
+					if r := recover(); r != nil {
+						got = []byte("panic")
+					}
+				}()
+				got = HashToScalar(m, dst).Encode()
+			}()
+			if !bytes.Equal(got, vPad32(want)) {
+				return "HashToScalar(\"message-" + itoa(i) + "\") = " + hex.EncodeToString(got) + ", RFC 9380 gives " + hex.EncodeToString(vPad32(want))
+			}
+		}
+		if c.N >= 1000 && small == 0 {
+			return "battery contains no scalar below 2^248"
+		}
+	case "h2-sequence":
+		// consecutive calls must be independent: same DST buffer overwritten in place between calls, then a fresh slice
+		m0, d1, d2 := vHex(c.A), vHex(c.B), vHex(c.C)
+		call := func(msg, dst []byte) []byte {
+			switch c.Op {
+			case "RO":
+				return HashToGroup(msg, dst).Encode()
+			case "NU":
+				return EncodeToGroup(msg, dst).Encode()
+			}
+			return HashToScalar(msg, dst).Encode()
+		}
+		want := func(msg, dst []byte) []byte {
+			switch c.Op {
+			case "RO":
+				return vSec1(vHashToCurve(msg, dst, true), true)
+			case "NU":
+				return vSec1(vHashToCurve(msg, dst, false), true)
+			}
+			return vPad32(new(big.Int).Mod(new(big.Int).SetBytes(vExpandXMD(msg, dst, 48)), vN))
+		}
+		buf := append([]byte{}, d1...)
+		if !bytes.Equal(call(m0, buf), want(m0, d1)) {
+			return c.Op + ": first call wrong"
+		}
+		if len(d2) == len(d1) {
+			copy(buf, d2)
+			if !bytes.Equal(call(m0, buf), want(m0, d2)) {
+				return c.Op + ": after overwriting the DST buffer in place the second call does not return the value for the new DST (|dst|=" + itoa(len(d2)) + ")"
+			}
+		}
+		if !bytes.Equal(call(m0, append([]byte{}, d2...)), want(m0, d2)) {
+			return c.Op + ": a later call with a different DST (|dst|=" + itoa(len(d2)) + ") returns a value that depends on the earlier call"
+		}
+		if !bytes.Equal(call(m0, append([]byte{}, d1...)), want(m0, d1)) {
+			return c.Op + ": calling again with the first DST gives a different value"
+		}
 	case "h2-panic":
 		m, dst := vHex(c.A), vHex(c.B)
 		if len(dst) == 0 && c.N == 1 {
